@@ -13,6 +13,7 @@ import Verif.Lemmas.Prune
 import Verif.Lemmas.MptStoreEvents
 import Verif.Props.C04
 import Verif.Lemmas.MptChain
+import Verif.Lemmas.TrieRun
 namespace Verif.Props.C05
 open Verif.Mpt Verif.MptStore Verif.MptStore.Collector Verif.Props.C04
 
@@ -59,6 +60,17 @@ theorem dead_not_live (H : Bytes → Bytes) (t0 t : Node) (b0 : Trie) (v : Nat) 
     (hU : KeyInjOn H (fun r => r ∈ refs t0 [] ∨ r ∈ eventRefs es)) :
     ∀ x ∈ deadKeys H (b0.applyEvents H es), x ∉ nodeKeys H t := by
   obtain ⟨hd, hc, _⟩ := round_discipline H hr hw hU
+  exact dead_not_live_partial H t0 t b0 es hfresh hd hc
+
+/-- **Dead set ∩ live set = ∅ — any round of a block trie** (own operations and merged, possibly nested, transactions:
+    `TrieRun`); discipline proved, key injectivity on the run's references assumed. -/
+theorem dead_not_live_run (H : Bytes → Bytes) (U : Ref → Prop) (t0 t : Node) (b0 : Trie) (v : Nat) (es : List Event)
+    (hfresh : b0.cc.changes = [] ∧ b0.cc.deletes = []) (hw : WF t0) (hUt : ∀ r ∈ refs t0 [], U r)
+    (hrun : TrieRun H U v t0 es t) (hU : KeyInjOn H U) :
+    ∀ x ∈ deadKeys H (b0.applyEvents H es), x ∉ nodeKeys H t := by
+  obtain ⟨hd, hc, _, _, _⟩ := trieRun_discipline H U hU hrun hw hUt (fun x => x ∈ (refs t0 []).map (Ref.key H))
+    (fun r hr => List.mem_map.mpr ⟨r, hr, rfl⟩)
+    (by intro x hx; obtain ⟨r, hr, hk⟩ := List.mem_map.mp hx; exact ⟨r, hUt r hr, hk⟩)
   exact dead_not_live_partial H t0 t b0 es hfresh hd hc
 
 /-- non-vacuity of `dead_not_live`: the round `ins [3] := 66` on the one-leaf tree of version 1, at version 2 -/
